@@ -302,6 +302,15 @@ fn page_op_s<S: PageSize>(a: u64, n: u64, which: u32) -> Res {
         }),
         6 => r_va(|| Step::forward(p, n as usize).start_address()),
         7 => r_va(|| Step::backward(p, n as usize).start_address()),
+        // the unsafe entry points: called only when their precondition (the position exists) holds
+        8 => match catch(|| Step::forward_checked(p, n as usize)) {
+            Some(Some(_)) => r_va(|| unsafe { Step::forward_unchecked(p, n as usize) }.start_address()),
+            _ => Res::None,
+        },
+        9 => match catch(|| Step::backward_checked(p, n as usize)) {
+            Some(Some(_)) => r_va(|| unsafe { Step::backward_unchecked(p, n as usize) }.start_address()),
+            _ => Res::None,
+        },
         _ => r_va(|| {
             let mut q = p;
             q -= n;
@@ -628,12 +637,24 @@ fn step_events(out: &mut Out, a: u64, b: u64, n: u64) {
     // the unchecked entry points (what `(x..)` iteration uses): the same position when it exists
     out.emit(ev2("va_step_fwd_u", a, n, 0, &r_va(|| Step::forward(v, n as usize))));
     out.emit(ev2("va_step_back_u", a, n, 0, &r_va(|| Step::backward(v, n as usize))));
+    let fu = match catch(|| Step::forward_checked(v, n as usize)) {
+        Some(Some(_)) => r_va(|| unsafe { Step::forward_unchecked(v, n as usize) }),
+        _ => Res::None,
+    };
+    out.emit(ev2("va_step_fwd_uu", a, n, 0, &fu));
+    let bu = match catch(|| Step::backward_checked(v, n as usize)) {
+        Some(Some(_)) => r_va(|| unsafe { Step::backward_unchecked(v, n as usize) }),
+        _ => Res::None,
+    };
+    out.emit(ev2("va_step_back_uu", a, n, 0, &bu));
     for s in 0..3u64 {
         let (pa_, pb_) = (page_start(s, a), page_start(s, b));
         out.emit(ev2("pg_step_fwd", pa_, n, s as i64, &page_op(s, a, n, 2)));
         out.emit(ev2("pg_step_back", pa_, n, s as i64, &page_op(s, a, n, 3)));
         out.emit(ev2("pg_step_fwd_u", pa_, n, s as i64, &page_op(s, a, n, 6)));
         out.emit(ev2("pg_step_back_u", pa_, n, s as i64, &page_op(s, a, n, 7)));
+        out.emit(ev2("pg_step_fwd_uu", pa_, n, s as i64, &page_op(s, a, n, 8)));
+        out.emit(ev2("pg_step_back_uu", pa_, n, s as i64, &page_op(s, a, n, 9)));
         let sb = match s {
             0 => catch(|| Step::steps_between(&mkpage::<Size4KiB>(pa_), &mkpage::<Size4KiB>(pb_))),
             1 => catch(|| Step::steps_between(&mkpage::<Size2MiB>(pa_), &mkpage::<Size2MiB>(pb_))),
@@ -661,6 +682,16 @@ fn idx_step_events(out: &mut Out, i: u16, j: u16, n: u64) {
     ));
     out.emit(ev2("idx_step_fwd_u", i as u64, n, 0, &r_u64(|| u64::from(Step::forward(x, n as usize)))));
     out.emit(ev2("idx_step_back_u", i as u64, n, 0, &r_u64(|| u64::from(Step::backward(x, n as usize)))));
+    let fu = match catch(|| Step::forward_checked(x, n as usize)) {
+        Some(Some(_)) => r_u64(|| u64::from(unsafe { Step::forward_unchecked(x, n as usize) })),
+        _ => Res::None,
+    };
+    out.emit(ev2("idx_step_fwd_uu", i as u64, n, 0, &fu));
+    let bu = match catch(|| Step::backward_checked(x, n as usize)) {
+        Some(Some(_)) => r_u64(|| u64::from(unsafe { Step::backward_unchecked(x, n as usize) })),
+        _ => Res::None,
+    };
+    out.emit(ev2("idx_step_back_uu", i as u64, n, 0, &bu));
     steps_between_ev(
         out,
         "idx_steps_between",
@@ -926,6 +957,32 @@ fn range_ev(out: &mut Out, op: &str, a: u64, b: u64, s: i64, incl: i64, len: Res
     out.emit(e);
 }
 
+/// the adaptors every iterator offers (nth, skip, step_by, count, last, size_hint) over a short range: they must agree
+/// with plain iteration and never panic
+fn adapt_ev<I: Iterator<Item = u64> + Clone>(out: &mut Out, op: &str, a: u64, b: u64, s: i64, incl: i64, it: I, cnt: usize) {
+    let ks: Vec<u64> = [0usize, 1, 2, cnt.saturating_sub(1), cnt, cnt + 1, cnt + 5, 3 * cnt + 7].iter().map(|&k| k as u64).collect();
+    let list = |v: &[Res]| format!("[{}]", v.iter().map(|r| r.json()).collect::<Vec<_>>().join(","));
+    let nth: Vec<Res> = ks.iter().map(|&k| { let mut i = it.clone(); r_opt(move || i.nth(k as usize)) }).collect();
+    let skip: Vec<Res> = ks.iter().map(|&k| { let i = it.clone(); r_opt(move || i.skip(k as usize).next()) }).collect();
+    let m = 1 + (a >> 12) as usize % 3 + (cnt % 2);
+    let (stepped, stepk) = match catch({ let i = it.clone(); move || i.step_by(m).take(RANGE_CAP + 8).collect::<Vec<u64>>() }) {
+        Some(v) => (v, "ok"),
+        None => (vec![], "panic"),
+    };
+    let count = { let i = it.clone(); r_u64(move || i.count() as u64) };
+    let last = { let i = it.clone(); r_opt(move || i.last()) };
+    let (lo, hi) = catch({ let i = it.clone(); move || i.size_hint() }).unwrap_or((usize::MAX, Some(0)));
+    out.emit(
+        Ev::new(op)
+            .w("a", a).w("b", b).n("s", s).n("incl", incl).n("cnt", cnt as i64)
+            .ints("ks", &ks.iter().map(|&k| k as i64).collect::<Vec<_>>())
+            .raw("nth", &list(&nth)).raw("skip", &list(&skip))
+            .n("m", m as i64).str("stepk", stepk).words("stepped", &stepped)
+            .raw("count", &count.json()).raw("last", &last.json())
+            .n("hint_lo", lo.min(1 << 30) as i64).n("hint_hi", hi.map(|h| h.min(1 << 30) as i64).unwrap_or(-1)),
+    );
+}
+
 fn page_range_s<S: PageSize>(out: &mut Out, s: i64, a: u64, b: u64, iterate: bool) {
     let (st, en): (Page<S>, Page<S>) = (mkpage(a), mkpage(b));
     let rg: PageRange<S> = Page::range(st, en);
@@ -940,6 +997,16 @@ fn page_range_s<S: PageSize>(out: &mut Out, s: i64, a: u64, b: u64, iterate: boo
         r_u64(|| ri.len()), r_u64(|| ri.size()), r_u64(|| ri.is_empty() as u64),
         if iterate { Some(drain(ri.map(|p| p.start_address().as_u64()))) } else { None },
     );
+    if iterate {
+        let (n0, k0) = drain(rg.map(|p| p.start_address().as_u64()));
+        if k0 == "ok" && n0.len() <= RANGE_CAP {
+            adapt_ev(out, "pg_range_adapt", a, b, s, 0, rg.map(|p| p.start_address().as_u64()), n0.len());
+        }
+        let (n1, k1) = drain(ri.map(|p| p.start_address().as_u64()));
+        if k1 == "ok" && n1.len() <= RANGE_CAP {
+            adapt_ev(out, "pg_range_adapt", a, b, s, 1, ri.map(|p| p.start_address().as_u64()), n1.len());
+        }
+    }
 }
 fn frame_range_s<S: PageSize>(out: &mut Out, s: i64, a: u64, b: u64, iterate: bool) {
     let (st, en): (PhysFrame<S>, PhysFrame<S>) = (mkframe(a), mkframe(b));
@@ -955,6 +1022,16 @@ fn frame_range_s<S: PageSize>(out: &mut Out, s: i64, a: u64, b: u64, iterate: bo
         r_u64(|| ri.len()), r_u64(|| ri.size()), r_u64(|| ri.is_empty() as u64),
         if iterate { Some(drain(ri.map(|p| p.start_address().as_u64()))) } else { None },
     );
+    if iterate {
+        let (n0, k0) = drain(rg.map(|p| p.start_address().as_u64()));
+        if k0 == "ok" && n0.len() <= RANGE_CAP {
+            adapt_ev(out, "fr_range_adapt", a, b, s, 0, rg.map(|p| p.start_address().as_u64()), n0.len());
+        }
+        let (n1, k1) = drain(ri.map(|p| p.start_address().as_u64()));
+        if k1 == "ok" && n1.len() <= RANGE_CAP {
+            adapt_ev(out, "fr_range_adapt", a, b, s, 1, ri.map(|p| p.start_address().as_u64()), n1.len());
+        }
+    }
 }
 
 /// a range of `cnt` items (exclusive) ending `back` items before `anchor_end` (a start address
